@@ -168,6 +168,13 @@ func (o *object) call(this Value, argumentList []Value, eval bool, frm frame) Va
 
 		// Enter a scope, name from the native object...
 		rt := o.runtime
+		if rt.scope == nil && !eval {
+			// Called from Go while no script is running (Value.Call, Value.String, ...): enter
+			// the global scope first, so that this call and the native calls nested in it are
+			// counted against the stack depth limit like any other.
+			rt.enterGlobalScope()
+			defer rt.leaveScope()
+		}
 		if rt.scope != nil && !eval {
 			rt.enterFunctionScope(rt.scope.lexical, this)
 			rt.scope.frame = frame{
